@@ -8,6 +8,7 @@ import IsoVerif.Props.C19
 import IsoVerif.Lemmas.Interval
 import IsoVerif.Lemmas.BinSearch
 import IsoVerif.Lemmas.Lists
+import IsoVerif.Lemmas.Jaccard
 
 namespace IsoVerif.Props.C19Lists
 open IsoVerif.Gen IsoVerif.Model IsoVerif.Lemmas
@@ -33,6 +34,21 @@ theorem coverage_fraction_spec (read iso : List Iv) (h1 : SD read) (h2 : SD iso)
   simp only [readCoverageFraction, coverage_sweep_eq read iso h1 h2 w1 w2]
 
 example : SD [(1, 5), (10, 12)] ∧ SD [(4, 11)] ∧ readCoverageFraction [(1, 5), (10, 12)] [(4, 11)] = some (4, 8) := by
+  decide +kernel
+
+/-! ### Jaccard similarity -/
+
+/-- `jaccard_similarity` = |A ∩ B| / |A ∪ B| with |A ∪ B| = |A| + |B| − |A ∩ B| (exact fraction); the inner
+    assertion never fails on sorted disjoint lists and the function raises exactly when the union is empty -/
+theorem jaccard_sweep_eq (l1 l2 : List Iv) (h1 : SD l1) (h2 : SD l2) (w1 : WFl l1) (w2 : WFl l2) :
+    jaccardSweep l1 l2 =
+      if intervalsTotalLength l1 + intervalsTotalLength l2 - inter l1 l2 = 0 then none
+      else some (inter l1 l2, intervalsTotalLength l1 + intervalsTotalLength l2 - inter l1 l2) := by
+  simp only [jaccardSweep]
+  rw [jaccardLoop_spec l1 false l2 false h1 h2 w1 w2 (by simp) (by simp) (by simp)]
+  simp
+
+example : SD [(1, 5), (10, 12)] ∧ jaccardSweep [(1, 5), (10, 12)] [(4, 11)] = some (4, 12) := by
   decide +kernel
 
 /-! ### prefix / suffix sums -/
